@@ -5,6 +5,7 @@
 use itertools::Itertools;
 
 use crate::{
+    constant::WORD_SIZE_BITS,
     tc::{lift::Lift, state::TypeCheckerState},
     vm::value::{PackedSpan, RuntimeBoxedVal, RSV, RSVD},
 };
@@ -90,12 +91,15 @@ impl Lift for PackedEncoding {
                 .sorted_by_key(|elem| elem.offset)
                 .collect();
 
-            // To be valid, spans must not overlap
+            // To be valid, spans must not overlap and must lie inside the word: a sub-word shifted
+            // so far that it runs past bit 256 (such as `(v & 0xffff) * 2^248`) loses its top bits,
+            // so it is not a field of the word with the size of the sub-word
             let mut spans_are_valid = true;
             let mut last_position = 0;
             for PackedSpan { offset, size, .. } in &spans {
                 spans_are_valid = spans_are_valid && last_position <= *offset;
                 last_position = offset.saturating_add(*size);
+                spans_are_valid = spans_are_valid && last_position <= WORD_SIZE_BITS;
             }
 
             // In order to prevent issues with inferring types for unused portions of a
